@@ -127,7 +127,7 @@ def special_cases(rng):
 def make_packages(ctx):
     rng = ctx.rng
     pks = hand_packages(rng)
-    n_new, n_map, n_enum, n_rest = ctx.n((5, 2, 1, 1), (24, 8, 4, 4))
+    n_new, n_map, n_enum, n_rest = ctx.n((5, 2, 1, 1), (18, 6, 3, 3))
     for _ in range(n_new):
         pk = detgen.gen_new_pkg(rng, {"n": rng.choice([2, 3, 3, 4]), "opt": False, "generic": 0.05})
         if rng.random() < 0.6:
